@@ -573,3 +573,11 @@ Section Top.
       cbn [app] in E1, E2. rewrite Esv in E1 at 2. rewrite E1, E2. reflexivity.
   Qed.
 End Top.
+
+(* ------------------------------------------------------------------ instances: the transcribed evaluator *)
+Require Import Blots.EvalInst Blots.EvalFull Blots.EvalAll Blots.proofs.LfInst Blots.proofs.AllLf.
+
+Definition emit_equiv_first_order_nq_evaluator (release : bool) :=
+  emit_equiv_first_order_nq release binop_impl builtin_impl impl_lf_respecting_inst binop_lit_ok_inst.
+Definition emit_equiv_first_order_nq_all (o : oracle) (release : bool) :=
+  emit_equiv_first_order_nq release (binop_all o) (builtin_all o) (impl_lf_respecting_all o) (binop_lit_ok_all o).
